@@ -1,4 +1,6 @@
 // C20: keyframe animations through KeyframeAnimation / KeyframeAnimationEncoder / Decoder.
+#include <algorithm>
+
 #include "common.h"
 #include "draco/animation/keyframe_animation.h"
 #include "draco/animation/keyframe_animation_decoder.h"
@@ -27,7 +29,7 @@ static int32_t add_track_dt(KeyframeAnimation *anim, int dt, int nc, const std::
     default: return -2;
   }
 }
-// anim order=<0 timestamps first | 1 tracks first> [speed=e,d] [q<track id>=bits] [trail=<hex>] -- <pc text>
+// anim order=<0 timestamps first | 1 tracks first> [speed=e,d] [q<track id>=bits] [del=<track ids>] [trail=<hex>] -- <pc text>
 //   attribute 0 of the pc = timestamps (float32 x1), further attributes = tracks in order
 // -> ok <hex> 0 0 | <decode> | <decode with transforms skipped> | <dump of the animation as built> | <ids returned by AddKeyframes>
 VH_OP(anim) {
@@ -64,6 +66,15 @@ VH_OP(anim) {
     ids.push_back(id);
   }
   if (tracks_first && !set_ts()) return "err-timestamps";
+  // del=<track id>[,<track id>…]: PointCloud::DeleteAttribute on the built animation (the remaining tracks keep their ids)
+  if (o.count("del")) {
+    for (int64_t id : vh::ilist(o["del"])) {
+      const int32_t att = anim.GetAttributeIdByUniqueId(static_cast<uint32_t>(id));
+      if (att <= 0) return "bad-op";
+      anim.DeleteAttribute(att);
+      ids.erase(std::remove(ids.begin(), ids.end(), static_cast<int32_t>(id)), ids.end());
+    }
+  }
   EncoderOptions eo = EncoderOptions::CreateDefaultOptions();
   if (o.count("speed")) {
     auto l = vh::ilist(o["speed"]);
@@ -101,4 +112,77 @@ VH_OP(anim) {
   };
   return "ok " + vh::hex(buf.data(), buf.size()) + " 0 0 | " + decode(false) + " | " + decode(true) + " | - | " +
          vh::dump_geometry(&anim, nullptr) + " | " + vh::joinl(ids);
+}
+
+// animapi <call> <call> …: the KeyframeAnimation API as a state machine (correspondence with lean/DracoModel/Animation.lean)
+//   call = T:<float bit patterns, comma separated or empty>        SetTimestamps
+//        | K:<data type>:<num components>:<component bit patterns>  AddKeyframes<T>(data type, num components, data)
+// -> <results: 1/0 for SetTimestamps, id for AddKeyframes> | <num_frames> <num_attributes>
+//    | <unique id>:<type>:<data type>:<components>:<size>:<stored components as unsigned bit patterns, '.' separated> …
+template <class T>
+static int32_t api_add(KeyframeAnimation *anim, DataType dt, uint32_t nc, const std::vector<int64_t> &v) {
+  std::vector<T> data(v.size());
+  for (size_t i = 0; i < v.size(); ++i) {
+    const uint64_t u = static_cast<uint64_t>(v[i]);
+    T t;
+    memcpy(&t, &u, sizeof(T));  // little endian: the low sizeof(T) bytes of the pattern
+    data[i] = t;
+  }
+  return anim->AddKeyframes(dt, nc, data);
+}
+VH_OP(animapi) {
+  KeyframeAnimation anim;
+  std::string rets;
+  for (size_t i = 1; i < a.size(); ++i) {
+    const std::string &c = a[i];
+    if (!rets.empty()) rets += ',';
+    if (c.rfind("T:", 0) == 0) {
+      auto l = vh::ilist(c.substr(2));
+      std::vector<float> ts(l.size());
+      for (size_t k = 0; k < l.size(); ++k) {
+        const uint32_t b = static_cast<uint32_t>(l[k]);
+        memcpy(&ts[k], &b, 4);
+      }
+      rets += anim.SetTimestamps(ts) ? "1" : "0";
+    } else if (c.rfind("K:", 0) == 0) {
+      size_t p1 = c.find(':', 2), p2 = p1 == std::string::npos ? p1 : c.find(':', p1 + 1);
+      if (p2 == std::string::npos) return "bad-op";
+      const int dt = atoi(c.substr(2, p1 - 2).c_str());
+      const uint32_t nc = static_cast<uint32_t>(strtoul(c.substr(p1 + 1, p2 - p1 - 1).c_str(), nullptr, 10));
+      auto l = vh::ilist(c.substr(p2 + 1));
+      int32_t id;
+      switch (dt) {
+        case DT_INT8: id = api_add<int8_t>(&anim, DT_INT8, nc, l); break;
+        case DT_UINT8: id = api_add<uint8_t>(&anim, DT_UINT8, nc, l); break;
+        case DT_INT16: id = api_add<int16_t>(&anim, DT_INT16, nc, l); break;
+        case DT_UINT16: id = api_add<uint16_t>(&anim, DT_UINT16, nc, l); break;
+        case DT_INT32: id = api_add<int32_t>(&anim, DT_INT32, nc, l); break;
+        case DT_UINT32: id = api_add<uint32_t>(&anim, DT_UINT32, nc, l); break;
+        case DT_FLOAT32: id = api_add<float>(&anim, DT_FLOAT32, nc, l); break;
+        default: return "bad-op";
+      }
+      rets += std::to_string(id);
+    } else {
+      return "bad-op";
+    }
+  }
+  std::string s = (rets.empty() ? std::string("-") : rets) + " | " + std::to_string(anim.num_frames()) + " " +
+                  std::to_string(anim.num_attributes()) + " |";
+  for (int i = 0; i < anim.num_attributes(); ++i) {
+    const PointAttribute *at = anim.attribute(i);
+    s += " " + std::to_string(at->unique_id()) + ":" + std::to_string(static_cast<int>(at->attribute_type())) + ":" +
+         std::to_string(static_cast<int>(at->data_type())) + ":" + std::to_string(static_cast<int>(at->num_components())) + ":" +
+         std::to_string(at->size()) + ":";
+    const int len = DataTypeLength(at->data_type());
+    const size_t n = at->size() * at->num_components();
+    std::string d;
+    for (size_t k = 0; k < n; ++k) {
+      uint64_t u = 0;
+      memcpy(&u, at->buffer()->data() + k * len, len);
+      if (k) d += '.';
+      d += std::to_string(u);
+    }
+    s += d.empty() ? "-" : d;
+  }
+  return s;
 }
